@@ -60,6 +60,9 @@ type c14Cli struct {
 	// ConnectTo: the targets name an address nothing listens on (192.0.2.1:8181) and -connect-to maps it to the server
 	ConnectTo    bool `json:",omitempty"`
 	KeepAliveOff bool `json:",omitempty"` // -keepalive=false
+	// ShortBody: the server announces Content-Length 20, sends 10 bytes and closes the connection: a failed exchange,
+	// whatever -max-body and -keepalive say
+	ShortBody bool `json:",omitempty"`
 }
 
 const wireBody = "0123456789"
@@ -71,10 +74,11 @@ type wireReq struct {
 }
 
 type wireServer struct {
-	ln   net.Listener
-	mu   sync.Mutex
-	reqs []wireReq
-	wg   sync.WaitGroup
+	ln    net.Listener
+	mu    sync.Mutex
+	reqs  []wireReq
+	wg    sync.WaitGroup
+	short bool // announce 20 body bytes, send 10, close
 }
 
 func newWireServer() (*wireServer, error) {
@@ -168,6 +172,10 @@ func (s *wireServer) serve(c net.Conn) {
 				resp = "HTTP/1.1 302 Found\r\nLocation: " + loc + "\r\nContent-Length: 10\r\nX-Served: redirect\r\n\r\n" + wireBody
 			}
 		}
+		if s.short {
+			c.Write([]byte(strings.Replace(resp, "Content-Length: 10", "Content-Length: 20", 1)))
+			return
+		}
 		if _, err := c.Write([]byte(resp)); err != nil {
 			return
 		}
@@ -187,6 +195,7 @@ func runC14Cli(c c14Cli) error {
 		return err
 	}
 	defer srv.close()
+	srv.short = c.ShortBody
 	base := "http://" + srv.ln.Addr().String()
 	if c.ConnectTo {
 		base = "http://192.0.2.1:8181"
@@ -384,6 +393,12 @@ func runC14Cli(c c14Cli) error {
 			}
 			continue
 		}
+		if c.ShortBody {
+			if r.Error == "" {
+				return fmt.Errorf("%s, -keepalive=%v: the server announced 20 body bytes, sent 10 and closed the connection, but the result has code %d and no error", what, !c.KeepAliveOff, r.Code)
+			}
+			continue
+		}
 		if r.Error != "" {
 			return fmt.Errorf("%s: unexpected error %q", what, r.Error)
 		}
@@ -452,6 +467,7 @@ func TestC14Cli(t *testing.T) {
 			defKeys = append(defKeys, kv.K)
 		}
 		c.KeepAliveOff = rapid.IntRange(0, 2).Draw(t, "keepaliveoff") == 0
+		c.ShortBody = rapid.IntRange(0, 4).Draw(t, "shortbody") == 0
 		c.ConnectTo = rapid.IntRange(0, 2).Draw(t, "connectto") == 0
 		if rapid.IntRange(0, 2).Draw(t, "proxyhdrs") == 0 {
 			c.ProxyHeaders = []c14CliKV{{"X-Proxy-Only", "p1"}}
